@@ -13,3 +13,8 @@ for modules in (codedict.HANDLER_MODULES, codedict.TRANSPORT_MODULES, codedict.P
 path = Path(__file__).resolve().parent.parent / "vf" / "codedict_baseline.json"
 path.write_text(json.dumps(sorted(tokens), indent=0, ensure_ascii=False) + "\n")
 print(len(tokens), "tokens ->", path)
+
+numbers = sorted(set(codedict.numbers(codedict.ALL_MODULES)))
+npath = path.with_name("codedict_numbers_baseline.json")
+npath.write_text(json.dumps(numbers) + "\n")
+print(len(numbers), "numbers ->", npath)
